@@ -474,3 +474,58 @@ def parsed_request(d, top=True):
     except Exception:
         return None
     return None
+
+
+# ------------------------------------------------------------------------------------------------
+# completeness of an executed write, judged on the bytes it was executed from
+# ------------------------------------------------------------------------------------------------
+def _strings_lenient(name, b):
+    """string elements until the bytes are used up; the last one may be shorter than its length prefix says (a
+    length is an upper bound everywhere in this protocol stack) but its prefix must be complete"""
+    vals, i = [], 0
+    while i < len(b):
+        if name == "SSTRING":
+            n, i = b[i], i + 1
+            tot = n
+        else:
+            if i + 2 > len(b):
+                return None
+            n = struct.unpack_from("<H", b, i)[0]
+            i += 2
+            tot = n + n % 2
+        vals.append(bytes(b[i:i + n]).decode("latin-1"))
+        i += tot
+    return vals
+
+
+def write_is_complete(r, raw):
+    """r: a write as it was executed (type, count, [offset,] values); raw: the request bytes.  The request must end
+    with exactly: type, element count[, offset], and then nothing but the whole data elements that were written --
+    no element cut off, no bytes left over.  -> None or what is wrong"""
+    if r["op"] == "ss":
+        data = bytes(r["data"])
+        return None if data and raw.endswith(data) else "the attribute bytes are not the end of the request"
+    name = lc.CODE2NAME.get(r["ty"])
+    if name is None:
+        return "unknown data type"
+    hdr = struct.pack("<HH", r["ty"], r["n"]) + (struct.pack("<I", r["off"]) if r["op"] == "wf" else b"")
+    norm = lambda vs: [(v if not isinstance(v, dict) else tuple(sorted(v.items()))) for v in vs]
+    if name in lc.SIZES:
+        dl = lc.SIZES[name] * len(r["vals"])
+        if dl == 0 or len(raw) < dl + len(hdr):
+            return "no data"
+        if raw[len(raw) - dl - len(hdr):len(raw) - dl] != hdr:
+            return (f"the request does not end with its {len(r['vals'])} whole {name} elements behind type/count"
+                    f"{'/offset' if r['op'] == 'wf' else ''} (bytes left over or an element cut off)")
+        try:
+            got = dec_vals(r["ty"], raw[len(raw) - dl:])
+        except Bad:
+            return "data not decodable"
+        return None if norm(got) == norm(r["vals"]) else "the values written are not the values in the request"
+    i = raw.find(hdr)
+    while i >= 0:
+        got = _strings_lenient(name, raw[i + len(hdr):])
+        if got is not None and got == list(r["vals"]):
+            return None
+        i = raw.find(hdr, i + 1)
+    return f"the request does not end with the {len(r['vals'])} {name} elements that were written"
